@@ -171,6 +171,9 @@ func (m *MatchHTTP) handleHttp2WithPriorKnowledge(reader io.Reader, req *http.Re
 	}
 
 	framer := http2.NewFramer(io.Discard, reader)
+	// ReadFrame allocates a buffer of the announced frame length before reading the payload, and the default
+	// limit is 16 MiB. Limit it to the largest frame a client may send before it has seen our SETTINGS.
+	framer.SetMaxReadFrameSize(http2InitialMaxFrameSize)
 
 	// read the first 10 frames until we get a headers frame (skipping settings, window update & priority frames)
 	var frame http2.Frame
@@ -247,6 +250,9 @@ func (m *MatchHTTP) UnmarshalCaddyfile(d *caddyfile.Dispenser) error {
 
 	return nil
 }
+
+// http2InitialMaxFrameSize is the initial value of SETTINGS_MAX_FRAME_SIZE (RFC 7540 Section 6.5.2).
+const http2InitialMaxFrameSize = 1 << 14
 
 // Interface guards
 var (
